@@ -18,7 +18,7 @@ DUP = {("C05", "m3"): "C05-m1", ("C06", "m3"): "C06-m1", ("C06", "m4"): "C06-m2"
 kept, dropped = [], []
 for d in sorted(glob.glob(MUT + "/C[0-9][0-9]")):
     pid = os.path.basename(d)
-    for mn in ("m1", "m2", "m3", "m4", "m5", "m6"):
+    for mn in ("m1", "m2", "m3", "m4", "m5", "m6", "m7", "m8"):
         conf = os.path.join(d, mn + "_confirm.txt")
         if not os.path.exists(conf): continue
         if (pid, mn) in DUP: dropped.append((pid, mn, "same edit as " + DUP[(pid, mn)])); continue
@@ -42,7 +42,7 @@ for d in sorted(glob.glob(MUT + "/C[0-9][0-9]")):
             for l in open(os.path.join(o, "notes.md")):
                 if l.strip(): title = l.strip().lstrip("# ").strip(); break
         meta = {"id": "%s-%s" % (pid, mn), "property": pid, "title": title, "files": files,
-                "origin": "fresh sub-agent that saw only the property text and a scratch worktree" + (" (second round: less obvious places asked for)" if mn in ("m3", "m4") else " (third round)" if mn in ("m5", "m6") else ""),
+                "origin": "fresh sub-agent that saw only the property text and a scratch worktree" + (" (second round: less obvious places asked for)" if mn in ("m3", "m4") else " (third round)" if mn in ("m5", "m6") else " (fourth round)" if mn in ("m7", "m8") else ""),
                 "suite": "11/11 PASS with the change applied" + (" (" + note + ")" if note else ""),
                 "demonstration": {"with_change": {"exit": 1, "output": dm.group(2).strip().splitlines()[-1] if dm.group(2).strip() else ""},
                                   "without_change": {"exit": 0, "output": dm.group(4).strip().splitlines()[-1] if dm.group(4).strip() else ""},
